@@ -3,7 +3,7 @@
    Every theorem is closed by `exact`.  `chunks` is ANY way the OS may cut the output into reads
    (sizes 0, 1, around the preview limit, 8192, the cap, inside multi-byte characters). *)
 From RipV Require Import Base.Prelude Model.TaskLifecycle Model.Capture Proofs.CaptureProofs
-  Proofs.TaskLifecycleProofs.
+  Proofs.TaskLifecycleProofs Gen.PumpJoin.
 
 (* background tasks: the log of a stream is byte for byte the first `cap` bytes written, whatever the
    chunking, cap 0 included; the counters say so *)
@@ -192,3 +192,63 @@ Example c17_cancelled_task :
   = [LSpawned; LRunning; LDelta 0; LDelta 1; LCancelReq; LDelta 0; LCancelled; LStatus 3]
   /\ s_main (run sched_cancel) = MEnd.
 Proof. exact sched_cancel_trace. Qed.
+
+(* ---------------- T1: the pumps are joined before the terminal frame ----------------
+   `gen_pipes_waiter` (Gen/PumpJoin.v) is REGENERATED from run_pipes_task on every run: the waiter's steps
+   in source order, with HOW each pump handle is waited for (JAwait = `h.await` as a statement of the body;
+   JBounded = anything else: inside timeout(..)/select!, handed to a helper, aborted, dropped).
+   `gen_pump_join_ok` is the generated obligation skel_wf gen_pipes_waiter = true.  `run_w ops` is the
+   system whose waiter leaves the join step as soon as every pump it REALLY waits for has returned. *)
+Theorem c17_lifecycle_any_waiter : forall ops : list wop, skel_wf ops = true -> forall sched : list act,
+  let s := run_w ops sched in
+  let t := trace s in
+  r_prefix_ok (recognise t) = true /\ (s_main s = MEnd <-> r_complete (recognise t) = true).
+Proof. exact lifecycle_language_skel. Qed.
+Print Assumptions c17_lifecycle_any_waiter.
+
+Example c17_waiter_canonical_wf : skel_wf waiter_canonical = true.
+Proof. exact waiter_canonical_wf. Qed.
+
+Theorem c17_lifecycle_code : forall sched : list act,
+  let s := run_w gen_pipes_waiter sched in
+  let t := trace s in
+  r_prefix_ok (recognise t) = true /\ (s_main s = MEnd <-> r_complete (recognise t) = true).
+Proof. exact (lifecycle_language_skel gen_pipes_waiter gen_pump_join_ok). Qed.
+Print Assumptions c17_lifecycle_code.
+
+Theorem c17_terminal_is_last_code : forall sched more : list act,
+  s_main (run_w gen_pipes_waiter sched) = MEnd ->
+  trace (run_w gen_pipes_waiter (sched ++ more)) = trace (run_w gen_pipes_waiter sched).
+Proof. exact (terminal_is_last_skel gen_pipes_waiter gen_pump_join_ok). Qed.
+Print Assumptions c17_terminal_is_last_code.
+
+(* once the terminal frame is out no pump reads any more: nothing is appended to a log and no delta frame
+   can be produced, whatever the process tree does afterwards — the byte counts of the terminal frame's
+   summaries are those of the stored logs *)
+Theorem c17_log_frozen_after_terminal_code : forall (sched more : list act) (i : N),
+  s_main (run_w gen_pipes_waiter sched) = MEnd ->
+  step (run_w gen_pipes_waiter (sched ++ more)) (APumpEmit i) = None
+  /\ step (run_w gen_pipes_waiter (sched ++ more)) (APumpSilent i) = None.
+Proof. exact (no_append_after_terminal_skel gen_pipes_waiter gen_pump_join_ok). Qed.
+Print Assumptions c17_log_frozen_after_terminal_code.
+
+(* seed C17-1 — the wait for the pumps bounded by a timeout (same steps, same order, only the join kind
+   differs): the shell exits, the waiter gives up, a descendant's late output follows the terminal frame *)
+Theorem c17_bounded_join_refuted :
+  exists (ops : list wop) (sched more : list act),
+    map wop_shape ops = map wop_shape waiter_canonical
+    /\ s_main (run_w ops sched) = MEnd
+    /\ trace (run_w ops (sched ++ more)) <> trace (run_w ops sched)
+    /\ r_prefix_ok (recognise (trace (run_w ops (sched ++ more)))) = false.
+Proof. exact bounded_join_refuted. Qed.
+Print Assumptions c17_bounded_join_refuted.
+
+(* the obligation is necessary: EVERY join discipline other than "both handles awaited unconditionally"
+   has a schedule in which a frame follows the terminal frame *)
+Theorem c17_unjoined_pump_refuted : forall j : join_spec, join_wf j = false ->
+  exists (sched more : list act),
+    s_main (run_j j sched) = MEnd
+    /\ trace (run_j j (sched ++ more)) <> trace (run_j j sched)
+    /\ r_prefix_ok (recognise (trace (run_j j (sched ++ more)))) = false.
+Proof. exact unjoined_pump_refutes. Qed.
+Print Assumptions c17_unjoined_pump_refuted.
